@@ -6,7 +6,7 @@
   cubed/core/ops.py            split_chunksizes(n, sc, tc)     `splitSizes` (`nextCut`, `cutsFrom`, `splitCuts`, `diffs`)
   cubed/core/ops.py            split_chunks                    `splitChunks`
   cubed/vendor/rechunker/algorithm.py
-        consolidate_chunks                                     `consolidate` (`resolveLim`, `resolveAll`, `consGo`)
+        consolidate_chunks                                     `consolidate` (`defaultLims`, `resolveLim`, `resolveAll`, `consGo`)
         _calculate_shared_chunks                               `shared`
         calculate_stage_chunks  (np.geomspace + floor)         oracle `Oracles.geo`
         _count_intermediate_chunks / calculate_single_stage_io_ops   `countInter` / `singleStageIo`
@@ -14,12 +14,13 @@
   cubed/core/rechunk.py
         _multspace (np.geomspace, floor(v / vint))             `msVals` over the oracle quotients `Oracles.msq`
         multspace                                              `multspace`
-        calculate_regular_stage_chunks                         `regStageChunks` (`transposeRows`, `column`)
+        calculate_regular_stage_chunks                         `regStageChunks` (`msRows`, `transposeRows`, `colsFrom`, `column`)
         _fix_copy_chunks                                       `fixCopy`
         multistage_regular_rechunking_plan                     `regularPlan` (`regLoop`)
         rechunk_plan                                           `copyOps`
   cubed/core/ops.py
-        _rechunk_plan (budget derivation + stage translation)  `rechunkPlanOps` (`rechunkerMaxMem`, `defaultMinMem`, `opsOfStages`)
+        _rechunk_plan (budget derivation + stage translation)  `rechunkPlanOps` (`totalCopies`, `rechunkerMaxMem`, `defaultMinMem`,
+                                                               `effMinMem`, `choosePlan`, `opsOfStages`)
 
   Float-dependent steps are *parameters* (`Oracles`): `gt1 a b` is the Python float test `(a / b) > 1`,
   `ge1 a b` is `(a / b) >= 1`, `hr a b` is `int(a / b)`, `geo r w k` is `calculate_stage_chunks(r, w, k)`
@@ -145,45 +146,50 @@ def resolveAll : List Nat → List Nat → List Lim → Except String (List Ax)
       | .ok rest => .ok (⟨n, c, r⟩ :: rest)
   | _, _, _ => .ok []
 
-/-- The consolidation loop, highest axis first.  First argument: the axes still to visit, *highest
-first* (their chunks are still the original ones); second: the already final chunks of the higher axes.
-`headroom` is always `max_mem / (itemsize * prod(new_chunks))` for the current `new_chunks`, so it
-need not be carried. -/
-def consGo (O : Oracles) (itemsize maxMem : Nat) : List Ax → List Nat → Except String (List Nat)
-  | [], done => .ok done
-  | a :: rest, done =>
-    match a.lim with
-    | none => consGo O itemsize maxMem rest (a.c :: done)
-    | some l =>
-      let others := lprod (rest.map (·.c)) * lprod done
-      let ub := min a.n l
-      let memUb := itemsize * (others * ub)
-      if memUb = 0 then .error errZeroDiv
-      else if O.gt1 maxMem memUb then
-        if O.ge1 maxMem memUb then consGo O itemsize maxMem rest (ub :: done) else .error errHeadroom
-      else
-        let cur := itemsize * (others * a.c)
-        let new := min (a.c * O.hr maxMem cur) ub
-        let memNew := itemsize * (others * new)
-        if memNew = 0 then .error errZeroDiv
-        else if O.ge1 maxMem memNew then consGo O itemsize maxMem rest (new :: done)
-        else .error errHeadroom
+/-- The consolidation loop.  Python visits the axes from the highest to axis 0; here the recursion descends
+to the higher axes (the tail) *first* and handles the head axis with their final chunks `done`, which is
+the same order of evaluation (and of errors).  `pre` = product of the (still original) chunks of the lower
+axes.  `headroom` is always `max_mem / (itemsize * prod(new_chunks))` for the current `new_chunks`, so it
+need not be carried: `cur` below is that denominator. -/
+def consGo (O : Oracles) (itemsize maxMem : Nat) : Nat → List Ax → Except String (List Nat)
+  | _, [] => .ok []
+  | pre, a :: rest =>
+    match consGo O itemsize maxMem (pre * a.c) rest with
+    | .error e => .error e
+    | .ok done =>
+      match a.lim with
+      | none => .ok (a.c :: done)
+      | some l =>
+        let others := pre * lprod done
+        let ub := min a.n l
+        let memUb := itemsize * (others * ub)
+        if memUb = 0 then .error errZeroDiv
+        else if O.gt1 maxMem memUb then
+          if O.ge1 maxMem memUb then .ok (ub :: done) else .error errHeadroom
+        else
+          let cur := itemsize * (others * a.c)
+          let new := min (a.c * O.hr maxMem cur) ub
+          let memNew := itemsize * (others * new)
+          if memNew = 0 then .error errZeroDiv
+          else if O.ge1 maxMem memNew then .ok (new :: done)
+          else .error errHeadroom
+
+/-- `if chunk_limits is None: chunk_limits = shape` -/
+def defaultLims (shape : List Nat) : Option (List Lim) → List Lim
+  | none => shape.map Lim.upto
+  | some l => l
 
 /-- `consolidate_chunks(shape, chunks, itemsize, max_mem, chunk_limits)`; `limits = none` is Python's
 `chunk_limits=None`.  Requires `len(chunks) = len(shape)` (always true at the call sites, which check it). -/
 def consolidate (O : Oracles) (shape chunks : List Nat) (itemsize maxMem : Nat)
     (limits : Option (List Lim)) : Except String (List Nat) :=
-  let lims := match limits with
-    | none => shape.map Lim.upto
-    | some l => l
-  if lims.length ≠ shape.length then .error errLimitsLen
-  else match resolveAll shape chunks lims with
+  if (defaultLims shape limits).length ≠ shape.length then .error errLimitsLen
+  else match resolveAll shape chunks (defaultLims shape limits) with
     | .error e => .error e
     | .ok axes =>
-      let mem := itemsize * lprod chunks
-      if mem > maxMem then .error errChunkMem
-      else if mem = 0 then .error errZeroDiv
-      else consGo O itemsize maxMem axes.reverse []
+      if itemsize * lprod chunks > maxMem then .error errChunkMem
+      else if itemsize * lprod chunks = 0 then .error errZeroDiv
+      else consGo O itemsize maxMem 1 axes
 
 /-! ## stages -/
 
@@ -305,10 +311,15 @@ def msRows (O : Oracles) (num : Nat) : List Nat → List Nat → Except String (
 /-- entry `j` of every row -/
 def column (rows : List (List Nat)) (j : Nat) : List Nat := rows.filterMap (·[j]?)
 
+/-- columns `j, j+1, …` (`fuel` of them) -/
+def colsFrom (rows : List (List Nat)) : Nat → Nat → List (List Nat)
+  | _, 0 => []
+  | j, fuel + 1 => column rows j :: colsFrom rows (j + 1) fuel
+
 /-- `np.array(stages).T.tolist()` for `ndim` rows of length `num` -/
 def transposeRows (rows : List (List Nat)) (num : Nat) : Except String (List (List Nat)) :=
   if rows = [] then .ok []
-  else if rows.all (fun r => r.length == num) then .ok ((List.range num).map (column rows))
+  else if rows.all (fun r => r.length == num) then .ok (colsFrom rows 0 num)
   else .error errRagged
 
 /-- `calculate_regular_stage_chunks(read_chunks, write_chunks, stage_count)` -/
@@ -394,6 +405,17 @@ def opsOfStages (target : List Nat) : List Stage → List (List Nat × List Nat)
   | s :: s2 :: rest =>
     (if s.read = s.write then (s.read, s.write) else (s.read, s.int)) :: opsOfStages target (s2 :: rest)
 
+/-- `min_mem` as passed to the planner: the argument, or the default rule -/
+def effMinMem (b : Budget) (nbytes : Nat) : Option Nat → Nat
+  | some m => m
+  | none => defaultMinMem b nbytes
+
+/-- `plan_func = multistage_rechunking_plan if allow_irregular else multistage_regular_rechunking_plan` -/
+def choosePlan (O : Oracles) (allowIrregular : Bool) (shape source target : List Nat)
+    (itemsize minMem maxMem : Nat) : Except String (List Stage) :=
+  if allowIrregular then irregularPlan O shape source target itemsize minMem maxMem
+  else regularPlan O shape source target itemsize minMem maxMem
+
 /-- `_rechunk_plan(x, chunks, min_mem, allow_irregular)` on normalised chunk sizes:
 `source = to_chunksize(x.chunks)`, `target = to_chunksize(normalize_chunks(chunks))`. -/
 def rechunkPlanOps (O : Oracles) (allowIrregular : Bool) (shape source target : List Nat)
@@ -401,12 +423,8 @@ def rechunkPlanOps (O : Oracles) (allowIrregular : Bool) (shape source target : 
   if source = target then .ok []
   else if lprod shape = 0 then .ok []
   else
-    let maxMem := rechunkerMaxMem b
-    let mm := match minMem with
-      | some m => m
-      | none => defaultMinMem b (itemsize * lprod shape)
-    match (if allowIrregular then irregularPlan O shape source target itemsize mm maxMem
-           else regularPlan O shape source target itemsize mm maxMem) with
+    match choosePlan O allowIrregular shape source target itemsize
+        (effMinMem b (itemsize * lprod shape) minMem) (rechunkerMaxMem b) with
     | .error e => .error e
     | .ok stages => .ok (opsOfStages target stages)
 
